@@ -111,7 +111,9 @@ class Membrane:
 
         y = numpy.log(
             [
-                ideal_experiment.permeance.value
+                ideal_experiment.permeance.convert(
+                    to_units=Units().kg_m2_h_kPa, component=component
+                ).value
                 for ideal_experiment in component_experiments.experiments
             ]
         )
